@@ -92,8 +92,10 @@ class ModeDriver(MachineDriver):
             if owner is not None and getattr(owner, "_canceled", False):
                 continue        # a cancelled PeriodicTask keeps one inert handle
             timers.append(_qual(cb))
-        delays = {n: sorted(m.modes[n].delay.delays) for n in MODES}
-        delays["machine"] = sorted(m.delay.delays)
+        def names(dm):
+            return sorted("<anonymous>" if len(n) == 36 and n.count("-") == 4 else n for n in dm.delays)
+        delays = {n: names(m.modes[n].delay) for n in MODES}
+        delays["machine"] = names(m.delay)
         dev = {"counter_state": m.counters["m1_counter"]._state is not None, "timer_running": bool(m.timers["m1_timer"].running),
                "timer_delays": sorted(m.timers["m1_timer"].delay.delays) if m.timers["m1_timer"].delay else []}
         lights = sorted((e.key, e.priority) for e in m.lights["l1"].stack)
@@ -133,6 +135,7 @@ class ModeDriver(MachineDriver):
         for w in sorted(self.waits):
             out.append(["clear", w])
         out.append(["use", "m1_count"])
+        out.append(["use", "m1_cnt_off"])      # a control event of a mode device with a delay
         return out
 
     def do_op(self, op):
